@@ -167,3 +167,8 @@ BOUNDS = {
 OUTSIDE = ["4 consumers with length > 1, length 4, 3 consumers with length 2 and pause 1 (2*10^5 schedules)", "retention (weak references) is measured in C20", "more than one early close / cancellation per run"]
 NONTRIVIAL_RULE = ">=1 source item and >=1 context switch in the schedule"
 ASSUMPTIONS = ["scheduler: every harness suspension is a scheduling point; a task blocked on a held lock is not runnable; all waiters re-contend on release (covers FIFO and barging locks)", "running out of the 28 choice ints is an unwinding failure (exit 2), never a pass"]
+
+MANIFEST = {
+    "text": "Bounded model checking on the implementation: the schedule is a vector of symbolic choice ints, every harness suspension is a scheduling point, CrossHair's exhausted path tree is the complete set of interleavings within the bound; per schedule: every child a prefix/full copy of the source sequence, no overlapping __anext__ under a lock, lock never held while no child is advanced, source released once at the end. Nothing is claimed outside the bounds listed in the evidence file.",
+    "note": 'Trusted: CrossHair 0.0.110 (with short-circuiting off and a refined callable() model), z3 5.1.0, the harness oracles. Harness lock: non-runnable while held, all waiters re-contend on release; running out of choice ints is an unwinding failure (exit 2).',
+}
